@@ -570,4 +570,79 @@ Proof.
   subst h'. rewrite Hper in D. simpl in D.
   destruct (periodic_next_spec interval (u_tcur u) (u_inclEv u) Hi) as [z [Ez _]]. exists z. rewrite <- D. exact Ez.
 Qed.
+
+(** ------------------------------------------------------------------------------------------ states seen and produced *)
+Section CHAIN.
+Context {H:Type} (hid:H -> nat) (act:H -> S -> Q -> S * bool * bool).
+Definition out1 (h:H) (st:S) (t:Q) : S := fst (fst (act h st t)).
+Fixpoint apply_all (t:Q) (hs:list H) (st:S) : S := match hs with [] => st | h :: r => apply_all t r (out1 h st t) end.
+Fixpoint inputs (t:Q) (hs:list H) (st:S) : list S := match hs with [] => [] | h :: r => st :: inputs t r (out1 h st t) end.
+Definition called (ids:list nat) (hs:list H) : list H := filter (fun h => memb (hid h) ids) hs.
+
+(** each called handler sees the state produced by the one called before it; the result is the last one's output *)
+Lemma run_handlers_chain c : forall hs ids t st st' tm lw l,
+  run_handlers S hid act c hs ids t st = (st', tm, lw, l) ->
+  st' = apply_all t (called ids hs) st /\ map (@k_in S) l = inputs t (called ids hs) st /\
+  map (@k_id S) l = map hid (called ids hs).
+Proof.
+  induction hs as [|h r IH]; simpl; intros ids t st st' tm lw l E.
+  - inversion E; subst. auto.
+  - unfold called. simpl. destruct (memb (hid h) ids) eqn:M.
+    + unfold out1. destruct (act h st t) as [[st1 tm1] lw1] eqn:Ea.
+      destruct (run_handlers S hid act c r ids t st1) as [[[st2 tm2] lw2] l2] eqn:E2. inversion E; subst.
+      destruct (IH _ _ _ _ _ _ _ E2) as [A [B C]]. simpl. rewrite Ea. simpl. fold (called ids r). rewrite <- A, <- B, <- C. auto.
+    + apply IH in E. exact E.
+Qed.
+End CHAIN.
+
+(** after a triggered event the called handlers see, in order, the trajectory state at the advanced time and then each
+    other's results; the state the integrator continues from is the last handler's result, at the same time *)
+Lemma resumes_from_triggered_handlers time s u l s2 stop : BODY time s u = (l, s2, stop) ->
+  a_status (u_ans u) = ReachedEventTrigger ->
+  let a := u_ans u in
+  let st0 := flow (ts_pay s) (ts_tadv s) (a_tadv a) in
+  let hs := called th_id (a_ids a) thandlers in
+  map (@k_in S) l = inputs th_act (a_tadv a) hs st0 /\ map (@k_id S) l = map (@th_id S) hs /\
+  ts_pay s2 = apply_all th_act (a_tadv a) hs st0 /\ ts_tadv s2 = a_tadv a.
+Proof.
+  unfold ts_body. intros E St. rewrite St in E.
+  destruct (run_handlers S th_id th_act CTriggered thandlers (a_ids (u_ans u)) (a_tadv (u_ans u)) _) as [[[p' tm] lw] l'] eqn:E2.
+  inversion E; subst; clear E. destruct (run_handlers_chain _ _ _ _ _ _ _ _ _ _ _ E2) as [A [B C]].
+  simpl. auto.
+Qed.
+
+(** same for a scheduled event: handlers in order, then the reporters due at that time see the handlers' result *)
+Lemma resumes_from_scheduled_handlers time s u l s2 stop : BODY time s u = (l, s2, stop) ->
+  a_status (u_ans u) = ReachedScheduledEvent ->
+  let a := u_ans u in
+  let st0 := flow (ts_pay s) (ts_tadv s) (a_tadv a) in
+  let hs := called h_id (u_evids u) (ss_handlers ss) in
+  let st1 := apply_all h_act (a_tadv a) hs st0 in
+  exists lh lr, l = lh ++ lr /\
+    map (@k_in S) lh = inputs h_act (a_tadv a) hs st0 /\ map (@k_id S) lh = map (@h_id S) hs /\
+    (forall k, In k lr -> k_cause k = CReport /\ k_in k = st1) /\
+    ts_pay s2 = st1 /\ ts_tadv s2 = a_tadv a.
+Proof.
+  unfold ts_body. intros E St. rewrite St in E.
+  destruct (handle_scheduled S subs (u_evids u) (a_tadv (u_ans u)) _) as [[[p' tm] lw] l'] eqn:E2.
+  inversion E; subst; clear E. simpl in E2.
+  destruct (run_handlers S h_id h_act CScheduled (ss_handlers ss) (u_evids u) (a_tadv (u_ans u)) _) as [[[p1 tm1] lw1] l1] eqn:E3.
+  inversion E2; subst; clear E2. destruct (run_handlers_chain _ _ _ _ _ _ _ _ _ _ _ E3) as [A [B C]].
+  exists l1, (run_reporters S (ss_reporters ss) (u_evids u) (a_tadv (u_ans u)) p'). rewrite app_nil_r.
+  repeat split; auto.
+  - apply run_reporters_log in H. tauto.
+  - clear -H. revert H. generalize (ss_reporters ss). induction l as [|r rs IH]; simpl; [intros []|].
+    destruct (memb (h_id r) (u_evids u)); simpl; [intros [<-|X]; auto|auto].
+Qed.
+
+(** and the next integrator call continues the trajectory from exactly that state and time *)
+Lemma next_step_continues_from_state time s u : 
+  forall l s2 stop, BODY time s u = (l, s2, stop) ->
+  forall time' u' l' s3 stop', BODY time' s2 u' = (l', s3, stop') ->
+  a_status (u_ans u') = StartOfContinuousInterval \/ a_status (u_ans u') = ReachedStepLimit ->
+  ts_pay s3 = flow (ts_pay s2) (ts_tadv s2) (a_tadv (u_ans u')).
+Proof.
+  intros l s2 stop _ time' u' l' s3 stop' E St. unfold ts_body in E.
+  destruct St as [St|St]; rewrite St in E; inversion E; subst; reflexivity.
+Qed.
 End TSL.
